@@ -301,3 +301,194 @@ pub fn run(args: &Args) {
         f
     });
 }
+
+// ------------------------------------------------------------------------------------------------------
+// c16e2e: designspace <rules> -> real fontc build -> GSUB FeatureVariations read back with read-fonts.
+//
+// Line: (c16e2e i (naxes k) (conflict 0|1) (rules ((boxes subs) …)) (result ok) (impl (features ((idx (lookup…)) …))
+//          (records (((axis min max) …) ((featidx (lookup …)) …)) …) (lookups (((from to) …) | other …)))
+//   boxes are in normalized coordinates (harness-side normalisation of the design coordinates it wrote; `none` = open end),
+//   glyphs are indices into e2e::design::GLYPH_NAMES.
+use crate::e2e::{build, design, dump, write};
+use write_fonts::read::tables::gsub::{SingleSubst, SubstitutionLookup};
+use write_fonts::read::tables::layout::Condition;
+use write_fonts::read::{FontRef, TableProvider};
+
+fn e2e_design(rng: &mut Rng) -> (design::Design, bool) {
+    let o = design::GenOpts {
+        max_axes: 2, max_glyphs: 8, composites: false, sparse: false, quads: false, vertical: false,
+        intermediate: false, corner: false, metrics_vary: false, mapping: false, nested: false,
+        transforms: false, non_export: false,
+    };
+    let mut d = loop {
+        let d = design::gen_design(rng, &o);
+        if d.glyph_names().len() >= 6 { break d; }
+    };
+    d.features = None;
+    let names = d.glyph_names();
+    let half = names.len() / 2;
+    let (sources, targets) = names.split_at(half);
+    let conflict = rng.chance(1, 3);
+    let n_rules = 1 + rng.below(5);
+    let mut rules = vec![];
+    for r in 0..n_rules {
+        let nb = 1 + rng.below(2);
+        let mut condsets = vec![];
+        for _ in 0..nb {
+            let mut cs = vec![];
+            for a in 0..d.axes.len() {
+                if rng.chance(2, 3) || (a + 1 == d.axes.len() && cs.is_empty()) {
+                    let (lo, hi) = (d.axes[a].min, d.axes[a].max);
+                    let i = rng.below(8);
+                    let j = i + 1 + rng.below(8 - i);
+                    let v = |k: usize| lo + (hi - lo) * k as f64 / 8.0;
+                    let min = if rng.chance(1, 5) { None } else { Some(v(i)) };
+                    let max = if rng.chance(1, 5) && min.is_some() { None } else { Some(v(j)) };
+                    cs.push((a, min, max));
+                }
+            }
+            condsets.push(cs);
+        }
+        // without `conflict` every rule substitutes glyphs of its own
+        let mut subs = vec![];
+        if conflict {
+            let s = rng.pick(sources).clone();
+            subs.push((s, rng.pick(targets).clone()));
+        } else if r < sources.len() {
+            subs.push((sources[r].clone(), rng.pick(targets).clone()));
+        } else {
+            continue;
+        }
+        rules.push(design::Rule { name: format!("r{r}"), condsets, subs });
+    }
+    d.rules = rules;
+    d.rules_processing_last = rng.chance(1, 4);
+    (d, conflict)
+}
+
+fn gidx(name: &str) -> S {
+    match design::GLYPH_NAMES.iter().position(|n| *n == name) {
+        Some(i) => S::usize(i),
+        None => S::atom("other"),
+    }
+}
+
+fn dump_gsub(bytes: &[u8], axis_rank: &[usize]) -> Result<S, String> {
+    let font = FontRef::new(bytes).map_err(|e| e.to_string())?;
+    let names = dump::names(&font);
+    let g = |gid: u32| gidx(names.get(gid as usize).map(|s| s.as_str()).unwrap_or(""));
+    let gsub = font.gsub().map_err(|e| e.to_string())?;
+    let fl = gsub.feature_list().map_err(|e| e.to_string())?;
+    let mut features = vec![];
+    for rec in fl.feature_records() {
+        let f = rec.feature(fl.offset_data()).map_err(|e| e.to_string())?;
+        features.push(S::list([S::str(&rec.feature_tag().to_string()), S::list(f.lookup_list_indices().iter().map(|i| S::usize(i.get() as usize)))]));
+    }
+    let mut lookups = vec![];
+    let ll = gsub.lookup_list().map_err(|e| e.to_string())?;
+    for lk in ll.lookups().iter() {
+        let lk = lk.map_err(|e| e.to_string())?;
+        match lk {
+            SubstitutionLookup::Single(l) => {
+                let mut pairs = vec![];
+                for st in l.subtables().iter() {
+                    match st.map_err(|e| e.to_string())? {
+                        SingleSubst::Format1(t) => {
+                            let d = t.delta_glyph_id() as i32;
+                            for c in t.coverage().map_err(|e| e.to_string())?.iter() {
+                                let from = c.to_u32();
+                                pairs.push(S::list([g(from), g(((from as i32 + d) & 0xffff) as u32)]));
+                            }
+                        }
+                        SingleSubst::Format2(t) => {
+                            let subs = t.substitute_glyph_ids();
+                            for (k, c) in t.coverage().map_err(|e| e.to_string())?.iter().enumerate() {
+                                pairs.push(S::list([g(c.to_u32()), g(subs[k].get().to_u32())]));
+                            }
+                        }
+                    }
+                }
+                lookups.push(S::list(pairs));
+            }
+            _ => lookups.push(S::atom("other")),
+        }
+    }
+    let mut records = vec![];
+    if let Some(fv) = gsub.feature_variations() {
+        let fv = fv.map_err(|e| e.to_string())?;
+        for rec in fv.feature_variation_records() {
+            let mut conds = vec![];
+            if let Some(cs) = rec.condition_set(fv.offset_data()) {
+                let cs = cs.map_err(|e| e.to_string())?;
+                for c in cs.conditions().iter() {
+                    match c.map_err(|e| e.to_string())? {
+                        Condition::Format1AxisRange(c) => conds.push(S::list([
+                            S::usize(axis_rank.get(c.axis_index() as usize).copied().unwrap_or(99)),
+                            S::f64(c.filter_range_min_value().to_f32() as f64),
+                            S::f64(c.filter_range_max_value().to_f32() as f64),
+                        ])),
+                        _ => conds.push(S::atom("other")),
+                    }
+                }
+            }
+            let mut substs = vec![];
+            if let Some(fts) = rec.feature_table_substitution(fv.offset_data()) {
+                let fts = fts.map_err(|e| e.to_string())?;
+                for s in fts.substitutions() {
+                    let alt = s.alternate_feature(fts.offset_data()).map_err(|e| e.to_string())?;
+                    substs.push(S::list([
+                        S::usize(s.feature_index() as usize),
+                        S::list(alt.lookup_list_indices().iter().map(|i| S::usize(i.get() as usize))),
+                    ]));
+                }
+            }
+            records.push(S::list([S::list(conds), S::list(substs)]));
+        }
+    }
+    Ok(S::kv("impl", [
+        S::k1("features", S::list(features)),
+        S::k1("records", S::list(records)),
+        S::k1("lookups", S::list(lookups)),
+    ]))
+}
+
+pub fn run_e2e(args: &Args) {
+    let seed = args.seed;
+    crate::run_cases("c16e2e", args, move |i| {
+        let mut rng = Rng::for_case(seed, "c16e2e", i);
+        let (d, conflict) = e2e_design(&mut rng);
+        let tmp = build::tmpdir("c16e2e");
+        let ds = write::write_design(tmp.path(), &d);
+        let res = build::compile(&ds, &build::BuildOpts::default());
+        let norm = |a: usize, v: Option<f64>| S::opt(v.map(|v| S::f64(d.normalize(a, d.user_to_design(a, v)))));
+        // the model's axis index is the position in Tag order (= BTreeMap order inside NBox)
+        let mut by_tag: Vec<usize> = (0..d.axes.len()).collect();
+        by_tag.sort_by_key(|a| d.axes[*a].tag.clone());
+        let mut axis_rank = vec![0usize; d.axes.len()];
+        for (pos, a) in by_tag.iter().enumerate() { axis_rank[*a] = pos; }
+        let mut f = vec![
+            S::k1("naxes", S::usize(d.axes.len())),
+            S::k1("conflict", S::usize(conflict as usize)),
+            S::k1("range", S::list(by_tag.iter().map(|&a| S::list([
+                S::f64(d.normalize(a, d.user_to_design(a, d.axes[a].min))),
+                S::f64(d.normalize(a, d.user_to_design(a, d.axes[a].max))),
+            ])))),
+            S::k1("rules", S::list(d.rules.iter().map(|r| S::list([
+                S::list(r.condsets.iter().map(|cs| S::list(cs.iter().map(|(a, lo, hi)| S::list([
+                    S::usize(axis_rank[*a]),
+                    norm(*a, *lo),
+                    norm(*a, *hi),
+                ]))))),
+                S::list(r.subs.iter().map(|(x, y)| S::list([gidx(x), gidx(y)]))),
+            ])))),
+        ];
+        match res {
+            Ok(bytes) => match dump_gsub(&bytes, &axis_rank) {
+                Ok(s) => { f.push(S::k1("result", S::atom("ok"))); f.push(s); }
+                Err(e) => f.push(S::kv("result", [S::atom("readerr"), S::str(&e)])),
+            },
+            Err(e) => f.push(S::kv("result", [S::atom("err"), S::str(&e)])),
+        }
+        f
+    });
+}
